@@ -24,9 +24,11 @@ Section Inflight.
     - intros q x Hq. destruct (D1 q x Hq) as (y & Hy & My). destruct (D2 q y Hy) as (z & Hz & Mz). exists z. auto.
   Qed.
 
-  Lemma apply_mono k st e : mono k st (apply_ev st e).
+  Definition no_unlink (e : ev) : Prop := match e with Unlink _ => False | _ => True end.
+
+  Lemma apply_mono k st e : no_unlink e -> mono k st (apply_ev st e).
   Proof.
-    destruct e as [p|m|m d|m|m|p]; simpl.
+    intros Hnu. destruct e as [p|m|m d|m|m|p|m]; simpl; [| | | | | |contradiction].
     - destruct (assoc (p_dirs st) p) eqn:E; [apply mono_refl|]. split; cbn [p_files p_dirs].
       + intros f H He. exists f. auto.
       + intros q b Hq. exists b. split; [|auto]. rewrite assoc_aset_other; [exact Hq|]. intros ->. congruence.
@@ -58,8 +60,22 @@ Section Inflight.
         destruct (name_eqb (parent q) p); eexists; split; try reflexivity; auto.
   Qed.
 
-  Lemma run_mono k : forall evs st, mono k st (run st evs).
-  Proof. induction evs as [|e evs IH]; intros st; simpl; [apply mono_refl|]. eapply mono_trans; [apply apply_mono | apply IH]. Qed.
+  Lemma run_mono k : forall evs st, Forall no_unlink evs -> mono k st (run st evs).
+  Proof.
+    induction evs as [|e evs IH]; intros st H; simpl; [apply mono_refl|]. inversion H; subst.
+    apply (mono_trans k st (apply_ev st e)); [apply apply_mono; assumption | apply IH; assumption].
+  Qed.
+
+  Lemma no_unlink_firstn j : forall l, Forall no_unlink l -> Forall no_unlink (firstn j l).
+  Proof. induction j as [|j IH]; intros [|x l] H; simpl; try constructor; inversion H; subst; [assumption | apply IH; assumption]. Qed.
+
+  Lemma set_no_unlink fl uf sd bs st n b : Forall no_unlink (set_trace fl uf sd bs st n b).
+  Proof.
+    unfold set_trace, core_trace. repeat (apply Forall_app; split);
+      repeat match goal with |- context [if ?c then _ else _] => destruct c end;
+      repeat (apply Forall_app; split); repeat constructor;
+      try (apply Forall_forall; intros e He; apply in_map_iff in He; destruct He as (p & <- & _); exact I).
+  Qed.
 
   (* the content of file n is touched only by its own open / write / fsync *)
   Definition content_of (st : pstate) (n : name) : option (bytes * option bytes * bool) :=
@@ -69,7 +85,7 @@ Section Inflight.
 
   Lemma silent_content n e st : silent e -> content_of (apply_ev st e) n = content_of st n.
   Proof.
-    destruct e as [p|m|m d|m|m|p]; simpl; intros H; try contradiction; try reflexivity.
+    destruct e as [p|m|m d|m|m|p|m]; simpl; intros H; try contradiction; try reflexivity.
     - destruct (assoc (p_dirs st) p); reflexivity.
     - unfold content_of, sync_children. cbn [p_files].
       rewrite (assoc_map_keyed (fun k => name_eqb (parent k) p) set_entry).
@@ -184,7 +200,7 @@ Section Inflight.
   Proof.
     intros Hg (Cf & Cd & Cc) Hin.
     pose proof (set_prefix_phases fl sd bs st n b j Hg) as Hph.
-    pose proof (run_mono n (firstn j (set_trace fl true sd bs st n b)) st) as [Mf Md].
+    pose proof (run_mono n (firstn j (set_trace fl true sd bs st n b)) st (no_unlink_firstn _ _ (set_no_unlink fl true sd bs st n b))) as [Mf Md].
     set (st' := run st (firstn j (set_trace fl true sd bs st n b))) in *.
     unfold cands_of in Hin. unfold content_of in Hph.
     destruct (assoc (p_files st') n) as [f|] eqn:Ef.
